@@ -1,7 +1,7 @@
 (* Pool/BlobResetProofs.v — recheck, Reset and Init keep the per-account invariant Inv of
    Pool/BlobProofs.v (for the repaired code: legacy_gap = false). *)
 From Coq Require Import List NArith ZArith Bool Lia Permutation Sorted.
-From GV Require Import Lib.Tactics Pool.Blob Pool.BlobProofs Pool.BlobAddProofs.
+From GV Require Import Lib.Tactics Pool.Blob Pool.BlobProofs Pool.BlobAddProofs Pool.BlobRollingProofs.
 Import ListNotations.
 Local Open Scope N_scope.
 
@@ -228,14 +228,37 @@ Proof.
   eapply same_core_trans; [|apply IH]. repeat split.
 Qed.
 
+(* the eviction fields of account a's list are prefix minima *)
+Definition rk (q : pool) (a : N) : Prop := forall l, aget (p_index q) a = Some l -> rolling None l.
+Lemma rk_none q a : aget (p_index q) a = None -> rk q a.
+Proof. intros H l Hl. rewrite H in Hl. discriminate. Qed.
+
+Lemma lasto_snoc o l x : lasto o (l ++ [x]) = Some x.
+Proof. unfold lasto, last_opt. rewrite rev_app_distr. reflexivity. Qed.
+
+Lemma scan_rolling a : forall rest prev acc p l p',
+  recheck_scan a prev rest acc p = Ok (l, p') ->
+  rolling None acc -> lasto None acc = Some prev -> rolling None l.
+Proof.
+  induction rest as [|m r IH]; intros prev acc p l p' H Hr Hl; cbn [recheck_scan] in H.
+  - inversion H; subst. exact Hr.
+  - destruct (m_nonce m =? wrap64 (m_nonce prev + 1)).
+    + eapply IH; [exact H | | apply lasto_snoc].
+      apply rolling_app; [exact Hr|]. rewrite Hl. apply roll_next; [symmetry; apply ev_next_idem | constructor].
+    + destruct (m_nonce m =? m_nonce prev).
+      * inv_bind_as H p1. inv_bind_as H p2. eapply IH; eauto.
+      * inv_bind_as H p1. inv_bind_as H p2. inversion H; subst. exact Hr.
+Qed.
+
 Lemma del_result a p1 q :
   same_core (set_spent (adel (p_spent p1) a) (set_index (adel (p_index p1) a) p1)) q ->
-  frame a p1 q /\ acct_ok q a.
+  frame a p1 q /\ acct_ok q a /\ rk q a.
 Proof.
-  intro Hc. split.
+  intro Hc. split; [|split].
   - eapply frame_trans; [apply frame_del | apply same_core_frame; exact Hc].
   - destruct Hc as [Hi [Hs _]]. unfold acct_ok. rewrite Hi, Hs. cbn [p_index p_spent set_index set_spent].
     rewrite !aget_adel, N.eqb_refl. reflexivity.
+  - apply rk_none. destruct Hc as [Hi _]. rewrite Hi. cbn [p_index set_index set_spent]. rewrite aget_adel, N.eqb_refl. reflexivity.
 Qed.
 
 Lemma pop_len a : forall fuel txs ids p txs' ids' p',
@@ -263,12 +286,12 @@ Proof. destruct b; intro H; [eapply heap_remove_core; eauto | inversion H; subst
 (* recheck (repaired code) on any account whose spent total is consistent leaves the account
    well-formed with respect to the chain state and touches no other account *)
 Lemma recheck_ok a incl p q :
-  recheck prioE prioB false a incl p = Ok q -> wf_acct p a -> frame a p q /\ acct_ok q a.
+  recheck prioE prioB false a incl p = Ok q -> wf_acct p a -> frame a p q /\ acct_ok q a /\ rk q a.
 Proof.
   intros H Hwf. unfold recheck in H. unfold wf_acct in Hwf.
   destruct (aget (p_index p) a) as [txs0|] eqn:Ei.
   2:{ destruct incl; [|discriminate]. inversion H; subst. split; [apply frame_refl|].
-      unfold acct_ok. rewrite Ei. exact Hwf. }
+      split; [unfold acct_ok; rewrite Ei; exact Hwf | apply rk_none; exact Ei]. }
   destruct Hwf as [Hne0 Hsp0].
   destruct (sort_metas_spec txs0) as [Hsorted Hperm].
   remember (sort_metas txs0) as txs eqn:Etxs. clear Etxs.
@@ -283,7 +306,7 @@ Proof.
   destruct txs as [|first tl]; [discriminate|].
   destruct (last_opt (first :: tl)) as [lastm|] eqn:El; [|discriminate].
   set (next := nonce_of p0 a) in *.
-  cut (frame a p0 q /\ acct_ok q a).
+  cut (frame a p0 q /\ acct_ok q a /\ rk q a).
   { intros [K1 K2]. split; [eapply frame_trans; eauto | exact K2]. }
   clearbody p0. clear F0 Hsp0 Ei Hne0 Hperm Hnx txs0 p.
   destruct ((next <? m_nonce first) || (m_nonce lastm <? next)) eqn:Egf.
@@ -342,6 +365,8 @@ Proof.
       { rewrite Hsp1. f_equal. rewrite !sum_cost_cons. change (sum_cost []) with 0.
         change (m_cost (ev_first f1)) with (m_cost f1). lia. }
       pose proof (recheck_scan_chain _ _ _ _ _ _ _ E (chain_one _) eq_refl) as Hch2.
+      assert (Hr2 : rolling None txs2).
+      { eapply scan_rolling; [exact E | | reflexivity]. apply roll_first; [symmetry; apply ev_first_idem | constructor]. }
       destruct (recheck_scan_prefix _ _ _ _ _ _ _ E) as [k2 Hk2].
       set (p2' := set_index (aset (p_index p2) a txs2) p2) in *.
       assert (F2 : frame a p0 p2').
@@ -364,7 +389,7 @@ Proof.
           inv_bind_as E q1. inv_bind_as E q2. inversion E; subst txs3 p3. clear E.
           apply store_dels_core in E2.
           destruct txs3' as [|x3 r3].
-          + destruct (del_result a q0 q2) as [K1 K2].
+          + destruct (del_result a q0 q2) as [K1 [K2 _]].
             { eapply same_core_trans; [|exact E2]. destruct incl; [eapply heap_remove_core; eauto | inversion E1; subst; apply same_core_refl]. }
             split; [eapply frame_trans; [exact F2|]; eapply frame_trans; [exact P3 | exact K1]|].
             left. unfold acct_ok in K2. destruct (aget (p_index q2) a) eqn:Eq.
@@ -398,9 +423,10 @@ Proof.
       * subst txs3. cbn [length Nat.ltb Nat.leb maxTxsPerAccount] in H. cbn [bind] in H.
         pose proof (Hfin p3 (same_core_refl _) H) as [Hi [Hs [Hn Hb]]].
         split; [eapply frame_trans; [exact F3 | apply same_core_frame; repeat split; assumption]|].
-        unfold acct_ok. rewrite Hi, Hs, Hi3. exact Hs3.
+        split; [unfold acct_ok; rewrite Hi, Hs, Hi3; exact Hs3 | apply rk_none; rewrite Hi; exact Hi3].
       * assert (Hch3 : chain txs3) by (rewrite Hk3 in Hch2; eapply chain_app_l; eauto).
         assert (Hst3 : starts next txs3) by (rewrite Hk3 in Hst2; eapply starts_app; eauto).
+        assert (Hr3 : rolling None txs3) by (rewrite Hk3 in Hr2; eapply rolling_app_l; eauto).
         destruct (Nat.ltb maxTxsPerAccount (length txs3)) eqn:Ecap.
         -- inv_bind_as H r4. inv_bind_as E r. destruct r as [[txs4 ids] q0]. inv_bind_as E q2. inversion E; subst r4. clear E.
            destruct (pop_spec a _ _ _ _ _ _ _ _ E0 Hs3) as [P1 [P2 [P3 [[k P4] P5]]]].
@@ -413,7 +439,7 @@ Proof.
              - inversion H; subst. apply same_core_refl.
              - inversion H; subst. apply same_core_refl. }
            pose proof (same_core_trans _ _ _ E1 Hq) as [Hi [Hs [Hn Hb]]].
-           split.
+           split; [|split].
            ++ eapply frame_trans; [exact F3|]. eapply frame_trans; [exact P3|].
               apply (frame_trans a q0 (set_index (aset (p_index q0) a txs4) q0));
                 [apply frame_set_index | apply same_core_frame; repeat split; assumption].
@@ -429,8 +455,11 @@ Proof.
               ** unfold bal_of. rewrite Hb. fold (bal_of (set_index (aset (p_index q0) a txs4) q0) a).
                  change (bal_of (set_index (aset (p_index q0) a txs4) q0) a) with (bal_of q0 a).
                  rewrite (frame_bal _ _ _ a P3), (frame_bal _ _ _ a F3). lia.
+           ++ intros l Hl. rewrite Hi in Hl. cbn [p_index set_index] in Hl. rewrite aget_aset, N.eqb_refl in Hl.
+              inversion Hl; subst l. rewrite P4 in Hr3. eapply rolling_app_l; eauto.
         -- cbn [bind] in H. pose proof (Hfin p3 (same_core_refl _) H) as [Hi [Hs [Hn Hb]]].
            split; [eapply frame_trans; [exact F3 | apply same_core_frame; repeat split; assumption]|].
+           split; [|intros l Hl; rewrite Hi, Hi3 in Hl; inversion Hl; subst l; exact Hr3].
            unfold acct_ok, nonce_of, bal_of. rewrite Hi, Hs, Hn, Hb, Hi3.
            fold (nonce_of p3 a). fold (bal_of p3 a). rewrite (frame_nonce _ _ _ a F3), (frame_bal _ _ _ a F3).
            repeat split; assumption.
@@ -523,7 +552,7 @@ Lemma reset_account (a : N) (f : btx -> bool) (inc : list btx) (p q q1 : pool) :
   wf_acct p a -> frame a p q /\ acct_ok q a.
 Proof.
   intros H1 incl H2 Hwf. destruct (fold_reinject a f inc p q1 H1 Hwf) as [K1 K2].
-  destruct (recheck_ok prioE prioB a incl q1 q H2 K2) as [L1 L2]. split; [eapply frame_trans; eauto | exact L2].
+  destruct (recheck_ok prioE prioB a incl q1 q H2 K2) as [L1 [L2 _]]. split; [eapply frame_trans; eauto | exact L2].
 Qed.
 
 (* chain consistency of a Reset: the reorg is not skipped (|oldNum - newNum| <= 64 and no
